@@ -172,7 +172,7 @@ impl Symbol {
 pub struct MacroDefinition {
     id: Located<Identifier>,
     args: Vec<Located<Identifier>>,
-    block: Vec<Token>,
+    block: Block,
 }
 
 pub struct CodegenContext {
@@ -1043,7 +1043,7 @@ impl CodegenContext {
                         MacroDefinition {
                             id: id.clone(),
                             args,
-                            block: block.inner.clone(),
+                            block: block.clone(),
                         },
                         SymbolType::Constant,
                     ),
@@ -1100,7 +1100,8 @@ impl CodegenContext {
                             .into());
                     }
                     self.macro_depth += 1;
-                    let result = self.with_scope(&macro_scope, None, |s| {
+                    // Like any other block, the body of the macro has a `-` and a `+`
+                    let result = self.with_scope(&macro_scope, Some(&def.block), |s| {
                         for (idx, arg_name) in def.args.iter().enumerate() {
                             let value = values.get(idx).unwrap().clone();
                             s.add_symbol(
@@ -1110,7 +1111,7 @@ impl CodegenContext {
                         }
 
                         let first_offset = s.source_map.offsets().len();
-                        s.emit_tokens(&def.block)?;
+                        s.emit_tokens(&def.block.inner)?;
 
                         if s.options.move_macro_source_map_to_invocation {
                             // Move all source map offsets of what the macro emitted (also from scopes nested in it) to the
@@ -1484,7 +1485,7 @@ impl CodegenContext {
 
                 for (symbol_nx, def) in macro_defs {
                     if s.symbol_definition(symbol_nx).is_unused() {
-                        let _ = s.emit_tokens(&def.block);
+                        let _ = s.emit_tokens(&def.block.inner);
                     }
                 }
 
